@@ -358,6 +358,11 @@ func (c *FnCtx) backEdge(bc *blockCtx, li *loopInfo, cond string, rr *regionRun)
 }
 
 func (c *FnCtx) loopEnv(bc *blockCtx, li *loopInfo) *Env {
+	return c.loopEnvSt(bc.fr, bc.st, li)
+}
+
+func (c *FnCtx) loopEnvSt(fr *Frame, st *State, li *loopInfo) *Env {
+	bc := &blockCtx{fr: fr, st: st}
 	env := c.newEnv(bc.fr, bc.st, c.top.entrySt)
 	// $idx: number of completed iterations of a range-over-slice loop
 	for _, in := range li.header.Instrs {
